@@ -330,6 +330,8 @@ META = (META[0] + ' IDXLOOP; FWINDOW (forward pointer scans end at data() + size
 
 META = (META[0] + ' FIRSTREAD (every search that scans by itself is executed over (size, pos, needle length) models up to its first read of the view: position min(pos, size-1) for the backward searches, pos for the forward ones); BOUND covers traits find / assign ranges; WRAP (a position argument is bounded before anything is added to it).', META[1])
 
+META = (META[0] + ' TRAITSORD (the ordering operations of the view order characters through Traits::compare / Traits::lt, never with the built-in `<` or a comparator-less ordering algorithm).', META[1])
+
 
 def run(chk, tier):
     db = D.load("checks")
@@ -343,6 +345,9 @@ def run(chk, tier):
     from ..rules import exits as _EX
     _EX.check_fwindow(chk, db)      # FWINDOW: forward pointer scans end at data() + size()
     _EX.pos_wrap_area(chk, db, ['_string_view/'])      # WRAP: position arguments are bounded before anything is added to them
+    from ..rules import extra8 as _X8
+    if _X8.traits_order_area(chk, db, ['_string_view/basic_string_view.hpp']) < 4:      # TRAITSORD
+        chk.analysis_broken('TRAITSORD: fewer than 4 ordering operations of basic_string_view found (floor 4)')
     if _EX.check_first_read(chk, db) < 4:      # FIRSTREAD: the first character a positional search looks at
         chk.analysis_broken("FIRSTREAD: fewer than 4 searches that scan by themselves (floor 4)")
     if _EX.check_rwindow(chk, db) < 1:      # both rfind members became pure delegations: nothing to judge here
